@@ -49,7 +49,7 @@ def source_files():
     res = []
     for p in sorted(glob.glob(os.path.join(COQ, '**', '*.v'), recursive=True)):
         rel = os.path.relpath(p, COQ)
-        if rel.startswith('gen' + os.sep) and os.path.basename(rel) != 'Consts.v':
+        if rel.startswith('gen' + os.sep) and os.path.basename(rel) not in GEN_FILES:
             continue
         res.append(rel)
     return res
@@ -115,11 +115,59 @@ def statements_in(rel):
     return names, qeds
 
 
+# files under gen/ that are regenerated from the repository source on every run and belong to the development
+# (Consts.v: constants and templates; Src*.v: Gallina definitions translated from the source text, harness/srcgen)
+GEN_FILES = ('Consts.v', 'SrcCal.v')
+
+
 def regenerate_consts():
+    """Regenerates every file of GEN_FILES from the repository source; returns the list of problems, each prefixed
+    by the name of the extractor / translator part it concerns."""
     from harness import consts
     text, problems = consts.generate(repo_path())
     write_if_changed(os.path.join(GEN, 'Consts.v'), text)
+    from harness.srcgen import cal as srccal
+    try:
+        text, probs = srccal.emit(repo_path())
+    except Exception as e:   # fail closed
+        text, probs = None, ['translator crashed: %r' % (e,)]
+    if text is not None and not probs:
+        write_if_changed(os.path.join(GEN, 'SrcCal.v'), text)
+    elif not os.path.exists(os.path.join(GEN, 'SrcCal.v')) and text is not None:
+        write_if_changed(os.path.join(GEN, 'SrcCal.v'), text)
+    problems += ['srccal: %s' % p for p in probs]
     return problems
+
+
+def save_good():
+    """Remember the generated files of a tree whose extraction and build had no problem."""
+    import shutil
+    for f in GEN_FILES:
+        try:
+            shutil.copyfile(os.path.join(GEN, f), os.path.join(GEN, f + '.good'))
+        except OSError:
+            pass
+
+
+def restore_good():
+    """Put the generated files of the last good build back; returns {file: text that was replaced} or None when
+    there is nothing to go back to / nothing differs."""
+    replaced = {}
+    for f in GEN_FILES:
+        cur, good = os.path.join(GEN, f), os.path.join(GEN, f + '.good')
+        if not os.path.exists(good):
+            continue
+        with open(good, encoding='utf-8') as fh:
+            gt = fh.read()
+        try:
+            with open(cur, encoding='utf-8') as fh:
+                ct = fh.read()
+        except FileNotFoundError:
+            ct = None
+        if ct != gt:
+            replaced[f] = ct
+            write_if_changed(cur, gt)
+    return replaced or None
 
 
 def make(jobs=16, timeout=3000, targets=None):
@@ -215,8 +263,7 @@ def main():
     if not problems and 'PJPLAN_REPO' not in os.environ:
         # the constants of a tree whose extraction had no problem: used by the checks to go on searching for a
         # failing input when a later change of the source makes the extraction (or the build with it) fail
-        import shutil
-        shutil.copyfile(os.path.join(GEN, 'Consts.v'), os.path.join(GEN, 'Consts.v.good'))
+        save_good()
     print('build ok: %d files in %.1fs' % (len(source_files()), time.time() - t0))
     sys.exit(1 if hits else 0)
 
